@@ -88,9 +88,33 @@ def buffer_layout(chk, f, node, buf, st, one_dim_gate=False):
     chk.finding("BUFFER-LAYOUT", f.module.rel, f.qname, "buffer argument `%s`" % (name or ast.unparse(buf)), why, line=node.lineno)
 
 
+SHADOWS = {"Quaternion": "A", "QuaternionArray": "array", "DCM": "A"}
+
+
+def shadow_init(chk, f):
+    """SHADOW-INIT: the constructor binds the class's shadow attribute (A / array: what every accessor and method reads) to the very array it hands to
+    ndarray.__new__ as the buffer, so that the object's own value and the shadow start out as one piece of memory"""
+    cname = f.cls.name if f.cls is not None else None
+    attr = SHADOWS.get(cname)
+    creates = creation_calls(f)
+    if attr is None or not creates:
+        return
+    bufs = {ast.unparse(c.args[3]) for c in creates if len(c.args) > 3}
+    binds = [s_ for s_ in ast.walk(f.node) if isinstance(s_, ast.Assign) and any(isinstance(t, ast.Attribute) and t.attr == attr for t in s_.targets)]
+    site = "%s::%s" % (f.ref, attr)
+    if binds and all(ast.unparse(b.value) in bufs for b in binds):
+        chk.record("SHADOW-INIT", site, "obj.%s is bound to the buffer handed to ndarray.__new__" % attr)
+    else:
+        why = ("the constructor never binds obj.%s" % attr) if not binds else \
+              ("obj.%s is bound to `%s`, not to the array handed to ndarray.__new__ (%s): the object's value and what its methods read differ from the start" % (attr, ast.unparse(binds[0].value)[:40], ", ".join(sorted(bufs))))
+        chk.record("SHADOW-INIT", site, "shadow attribute bound to the construction buffer", verdict="VIOLATION", detail=why)
+        chk.finding("SHADOW-INIT", f.module.rel, f.qname, "binding of obj.%s" % attr, why, line=f.node.lineno)
+
+
 def quat_ctor(chk, prog, ref, versor_param):
     f = prog.func(ref)
     chk.touch(f)
+    shadow_init(chk, f)
     for versor in (True, False):
         seen = []
 
@@ -150,6 +174,7 @@ def dcm_ctor(chk, prog):
     ref = DCM + "::DCM.__new__"
     f = prog.func(ref)
     chk.touch(f)
+    shadow_init(chk, f)
     creates = creation_calls(f)
     seen = []
 
